@@ -307,11 +307,15 @@ func Footprint(label string, f func()) { footprints[label] = f }
 
 func ConflictFree(a, b string) bool {
 	fa, fb := footprints[a], footprints[b]
-	var wg sync.WaitGroup
-	wg.Add(2)
-	go func() { defer wg.Done(); fa() }()
-	go func() { defer wg.Done(); fb() }()
-	wg.Wait()
+	// several rounds: state handed over through synchronised containers (a sync.Pool's per-P caches)
+	// only reaches the other goroutine under some schedules
+	for round := 0; round < 3000; round++ {
+		var wg sync.WaitGroup
+		wg.Add(2)
+		go func() { defer wg.Done(); fa() }()
+		go func() { defer wg.Done(); fb() }()
+		wg.Wait()
+	}
 	return true
 }
 
